@@ -440,6 +440,15 @@ async def search(ctx):
                             {"files_a": {p: h.digest.hex() for p, h in fa.items()},
                              "files_b": {p: h.digest.hex() for p, h in fb.items()}, "digest": impl_out(fa).hex()}))
     await oracle_refreshed(ctx)
+    import hashrace
+
+    problems, ncase = hashrace.run(ctx.rng("hashrace"), ctx.budget(40, 600))
+    ctx.stats.count("refreshed-while-rewritten-cases", ncase)
+    for pr in problems[:1]:
+        ctx.finding(Finding(PID, "refreshed-misses:rewritten-while-hashed",
+                            "a file rewritten right after its bytes were read for hashing is recorded with the digest of "
+                            "the old content and the stat fields of the new one: the next refreshed() takes the unchanged "
+                            "short cut and keeps the wrong digest", {**pr, "how": "harness/hashrace.py run()"}))
 
 
 async def oracle_refreshed(ctx):
